@@ -166,6 +166,8 @@ func c05(c *Ctx) {
 
 	// ---- R-skip -----------------------------------------------------------------
 	writers := c.ruleSkip("R-skip", tb)
+	// ... and the write itself reaches the device in every Fan.SetPwm implementation (shared with C03)
+	c.ruleFanWrites("R-write")
 
 	// ---- R-count ------------------------------------------------------------------
 	for _, w := range writers {
